@@ -957,11 +957,12 @@ func everyOutputOfAReflectiveCallIsVisited(c *core.Ctx) {
 // a violation until someone has argued that nothing an evaluation puts there
 // changes what another evaluation computes.
 var sharedStateAllowed = map[string]string{
-	"builtins.codecs":          "registry of codecs by name, every access under codecsMutex; entries are added by init and by the host's RegisterCodec, never by an evaluation (C09-R1 checks the lock)",
-	"errz.typeErrorsAreFatal":  "host setting, written only by the exported setter that no repository function calls (C09-R1)",
-	"object.goTypeRegistry":    "memo keyed by reflect.Type under goTypeMutex; an entry depends on its key only, and a type that cannot be completed is unpublished again (C08-R12, C09-R1)",
-	"object.typeConverters":    "memo keyed by reflect.Type under goTypeMutex; an entry depends on its key only (C09-R1)",
-	"os.globalScriptargs":      "host setting, written only by the exported setter that no repository function calls (C09-R1)",
+	"builtins.codecs":             "registry of codecs by name, every access under codecsMutex; entries are added by init and by the host's RegisterCodec, never by an evaluation (C09-R1 checks the lock)",
+	"errz.typeErrorsAreFatal":     "host setting, written only by the exported setter that no repository function calls (C09-R1)",
+	"object.convertersInProgress": "the types whose converter is being built, under goTypeMutex; every count is taken back (deferred) by the call that added it, so the table is empty whenever the lock is free (C08-R27 needs it; C09-R1 checks the lock)",
+	"object.goTypeRegistry":       "memo keyed by reflect.Type under goTypeMutex; an entry depends on its key only, and a type that cannot be completed is unpublished again (C08-R12, C09-R1)",
+	"object.typeConverters":       "memo keyed by reflect.Type under goTypeMutex; an entry depends on its key only (C09-R1)",
+	"os.globalScriptargs":         "host setting, written only by the exported setter that no repository function calls (C09-R1)",
 }
 
 func sharedStateIsEnumerated(c *core.Ctx) {
@@ -1816,9 +1817,11 @@ func binaryOperatorsStepOverNewlines(c *core.Ctx) {
 // followed by a line break: the statement before its final expectPeek(closer)
 // is a loop that steps over NEWLINE tokens.  The list, call and map parsers do
 // this; a sibling that does not rejects
-//     {1,
-//      2
-//     }
+//
+//	{1,
+//	 2
+//	}
+//
 // although the same layout is accepted for a list and a map.
 func closersAreExpectedAfterTheNewlines(c *core.Ctx) {
 	p := c.P
